@@ -59,7 +59,7 @@ GHOST static void yield_final(void) {
       if (!strcmp(g_case.ops[i][j].name, "yield")) total_yields += g_case.ops[i][j].a;
   vs_label_max("max_bypass", (uint64_t)max_bypass);
   vs_label_max("max_ready", (uint64_t)max_ready);
-  if (max_ready >= 3 && total_yields >= 5 * bound) vs_label_add("nontrivial", 1);
+  if (max_ready >= 3 && total_yields >= 5 * bound) rt_nontrivial("yield");
   vs_rt_exit();
 }
 
